@@ -139,7 +139,7 @@ def run(P: Program, R: Report, tier: str) -> None:
                     n_add += 1
                     s = snap_state(ev.pre)
                     src, tgt = ev.args["source"], ev.args["target"]
-                    where = ev.ctx[0].split(".")[0] if ev.ctx else "direct"
+                    where = ev.xctx[0].split(".")[0] if ev.xctx else "direct"
                     label = f"add_edge({strip(src)[:50]} -> {strip(tgt)[:50]}) via {where}"
                     host = f
                     for cx in reversed(ev.ctx):
@@ -169,33 +169,33 @@ def run(P: Program, R: Report, tier: str) -> None:
                             "a backward, same-frame or self edge is accepted", via="facts", path=trail_text(pr.trail))
     R.floor("R03.2", "add_edge events", n_add, 4)
 
-    # ---- R03.3 strict neighbour contract
+    # ---- R03.3 strict neighbour contract (the interpreter models this function by its contract:
+    # pred is strictly before `time`, succ strictly after; here the contract is checked on the code)
     gtn = P.func_named("get_track_neighbors", "SolutionTracks")
     tparam = gtn.params[2] if len(gtn.params) > 2 else "time"
-    rets = [n for n in ast.walk(gtn.node) if isinstance(n, ast.Return) and isinstance(n.value, ast.Tuple) and len(n.value.elts) == 2]
-    names = None
-    for r in rets:
-        a, b = r.value.elts
-        if isinstance(a, ast.Name) and isinstance(b, ast.Name):
-            names = (a.id, b.id)
-    if names is None:
-        R.undecided("R03.3", gtn, gtn.node, "get_track_neighbors returns a (pred, succ) pair of locals", "shape not recognised")
-    else:
-        for idx, (nm, want) in enumerate(zip(names, (ast.Lt, ast.Gt), strict=True)):
-            ok_all, found = True, 0
-            for n in ast.walk(gtn.node):
-                if isinstance(n, ast.If):
-                    assigns = [s for s in n.body if isinstance(s, ast.Assign) and any(isinstance(t, ast.Name) and t.id == nm for t in s.targets)]
-                    assigns = [s for s in assigns if not (isinstance(s.value, ast.Constant) and s.value.value is None)]
-                    if not assigns:
-                        continue
-                    found += 1
-                    t = n.test
-                    ok = isinstance(t, ast.Compare) and len(t.ops) == 1 and "get_time" in norm(t.left) and norm(t.comparators[0]) == tparam and isinstance(t.ops[0], want)
-                    # the mirrored spelling  time > get_time(c)
-                    ok = ok or (isinstance(t, ast.Compare) and len(t.ops) == 1 and "get_time" in norm(t.comparators[0]) and norm(t.left) == tparam and isinstance(t.ops[0], ast.Gt if want is ast.Lt else ast.Lt))
-                    ok_all = ok_all and ok
-            R.check(found > 0 and ok_all, "R03.3", gtn, gtn.node,
-                    f"get_track_neighbors picks its {'predecessor' if idx == 0 else 'successor'} with a strict time comparison",
-                    "a non-strict comparison lets a same-frame node become a track neighbour (same-frame edge)", via="contract")
+    A2 = ActionAnalysis(P, loop_iters=2)
+    _, gres = A2.run(gtn)
+    n_ret = 0
+    for pr in gres:
+        if pr.kind != "return":
+            continue
+        ret = pr.data.ret or ""
+        from ..absint import is_tuple_term, split_tuple
+
+        if not is_tuple_term(ret) or len(split_tuple(ret)) != 2:
+            R.undecided("R03.3", gtn, gtn.node, "get_track_neighbors returns a (pred, succ) pair", f"returns {ret[:60]}")
+            continue
+        p_, s_ = split_tuple(ret)
+        rev = [e for e in pr.data.events if getattr(e, "kind", "") == "return"]
+        d = snap_state(rev[-1].pre) if rev and rev[-1].pre else pr.data
+        for role, node, lt in (("predecessor", p_, lambda n: d.time_lt(d.trep(f"time({n})"), f"${tparam}")),
+                               ("successor", s_, lambda n: d.time_lt(f"${tparam}", d.trep(f"time({n})")))):
+            if node == "None":
+                continue
+            n_ret += 1
+            R.check(lt(node), "R03.3", gtn, gtn.node,
+                    f"get_track_neighbors: a returned {role} is strictly {'before' if role == 'predecessor' else 'after'} the query time",
+                    f"on a path returning {strip(node)[:40]} as {role} no strict comparison with `{tparam}` was passed: "
+                    "a node of the same frame can become a track neighbour (same-frame edge)", via="facts")
+    R.floor("R03.3", "non-None neighbours returned on some path", n_ret, 2)
     c02.history_shape(P, R)
